@@ -162,6 +162,9 @@ func (opp *operationPack) Write(def Definition, repo repository.Repo, parentComm
 
 	if signingKey != nil {
 		commitHash, err = repo.StoreSignedCommit(treeHash, signingKey.PGPEntity(), parentCommit...)
+	} else if len(opp.Author.ValidKeysAtTime(fmt.Sprintf(editClockPattern, def.Namespace), opp.EditTime)) > 0 {
+		// readOperationPack would refuse this commit: don't store something that can't be read back
+		return "", fmt.Errorf("the author has signing keys but no private key is available to sign")
 	} else {
 		commitHash, err = repo.StoreCommit(treeHash, parentCommit...)
 	}
